@@ -257,6 +257,12 @@ def build_app(which, docroot):
         @app.error_handler(KeyErr)
         def kerr(req, err):
             return "A-keyerr", "text/plain"
+
+        # a status page that fails itself: with debug on (A) the 500 page
+        # shows the traceback chain of this request, and only of this one
+        @app.http_state(405)
+        def crash405(req, *_):
+            raise RuntimeError("405 page failed")
     else:
         @app.default(2)
         def default_get(req):
@@ -610,7 +616,7 @@ def run(ctx):
         if ctx.quick:
             seqs = seqs[:len(kinds)] + rng.sample(seqs[len(kinds):], 500)
         # ordered pairs on one application that every run includes
-        must = [("ovword", "ovint"), ("ovint", "ovword", "ovint"),
+        must = [("405", "405"), ("404", "405", "405"), ("ovword", "ovint"), ("ovint", "ovword", "ovint"),
                 ("merge1", "merge2"), ("merge1", "mergepost"),
                 ("mergepost", "mergenoargs"), ("mergenoargs", "merge2"),
                 ("authok", "authok2"), ("usermiss", "user"),
